@@ -261,10 +261,13 @@ func init() {
 		"Torn states are derived from consecutive quiescent snapshots around each write step, so every other file is consistent with the moment of the tear.",
 		[]Stage{en("crash09", 16, 40, prm("oracle", "c08", "len", 2, "alphabet", "T2 TV WB F C")), en("crash09", 16, 40, prm("oracle", "c08", "len", 2, "alphabet", "T2 TV WB", "cut_short", true)), en("crash09", 16, 60, prm("oracle", "c08", "len", 3, "alphabet", "T2 TV WB F C", "max_per_step", 24)), en("crash09", 16, 40, prm("oracle", "c08", "len", 2, "alphabet", "TV WB F", "encrypt", true, "max_per_step", 64, "cut_short", true))},
 		[]Stage{en("crash09", 16, 900, prm("oracle", "c08", "len", 4, "alphabet", "T2 TV TD WB F C R", "cut_short", true)), en("crash09", 16, 600, prm("oracle", "c08", "len", 3, "alphabet", "T2 TV WB F C", "encrypt", true, "cut_short", true))})
-	planTable["C10"] = crashPlan("SyncWrites on. For every persistence step of every history the power-loss image is constructed from the event log (file contents as of the last completed msync/fsync/O_DSYNC write of that inode, directory entries as of the last completed directory fsync) and recovered: it must Open and contain every acknowledged operation as a commit-order prefix. Concurrent part: three committers on a nearly full memtable (so that two requests are written as one batch with a memtable/WAL rotation between them), every persistence step a schedule point, interleavings up to the preemption bound; the power-loss image of every step of every schedule must contain the commits acknowledged by then.",
+	planTable["C10"] = crashPlan("SyncWrites on. For every persistence step of every history the power-loss image is constructed from the event log (file contents as of the last completed msync/fsync/O_DSYNC write of that inode, directory entries as of the last completed directory fsync) and recovered: it must Open and contain every acknowledged operation as a commit-order prefix. Concurrent part: three committers on a nearly full memtable (so that two requests are written as one batch with a memtable/WAL rotation between them), every persistence step a schedule point, interleavings up to the preemption bound; the power-loss image of every step of every schedule must contain the commits acknowledged by then. Variants: Dir and ValueDir as different directories (each with its own directory fsyncs; sequential histories and the concurrent scenario), and the concurrent scenario with value-log values while the value log rotates in the middle of a batch of two requests.",
 		"Power-loss model: only explicitly synced contents and directory entries survive; file sizes travel with the directory entry; everything present when Open returned is taken as durable.",
-		[]Stage{en("crash10", 16, 80, prm("oracle", "c08", "sync_writes", true, "len", 4, "alphabet", "T2 TV TD WB F C R")), sched("crash10c", 1, 16, 45, nil)},
-		[]Stage{en("crash10", 16, 900, prm("oracle", "c08", "sync_writes", true, "len", 5, "alphabet", "T2 TV TD WB F C R GC")), sched("crash10c", 2, 16, 900, nil)})
+		[]Stage{en("crash10", 16, 80, prm("oracle", "c08", "sync_writes", true, "len", 4, "alphabet", "T2 TV TD WB F C R")),
+			// Dir and ValueDir are different directories: each has its own directory fsyncs
+			en("crash10", 16, 40, prm("oracle", "c08", "sync_writes", true, "separate_value_dir", true, "len", 3, "alphabet", "T2 TV WB F C")),
+			sched("crash10c", 1, 16, 45, nil), sched("crash10c", 1, 16, 30, prm("separate_value_dir", true)), sched("crash10c", 1, 16, 30, prm("vlog", true))},
+		[]Stage{en("crash10", 16, 900, prm("oracle", "c08", "sync_writes", true, "len", 5, "alphabet", "T2 TV TD WB F C R GC")), sched("crash10c", 2, 16, 900, nil), sched("crash10c", 2, 16, 600, prm("separate_value_dir", true)), sched("crash10c", 2, 16, 600, prm("vlog", true)), en("crash10", 16, 600, prm("oracle", "c08", "sync_writes", true, "separate_value_dir", true, "len", 4, "alphabet", "T2 TV TD WB F C R GC"))})
 
 	planTable["C11"] = crashPlan("After every recovery of every crash image (page-cache images at every persistence step, including clean close/re-open steps inside the histories) the maximum stored version is dumped (all versions, internal keys, and the memtable max version), then a new transaction writes every key: each new Item.Version must exceed that maximum and reads must return the new values.",
 		"Piggy-backs on the C08 image enumeration (which contains DropAll / DropPrefix histories); the StreamWriter and Backup/Load enumerations of C26 / C24 are run as further stages because they end with the same post-condition (new commit above every loaded version, read back).",
